@@ -104,6 +104,11 @@ class BaseExtractor:
                         tables += self._add_dataset_from_expression_element(
                             from_expression_element, holder
                         )
+                    # a comma separated item can itself carry explicit joins: FROM a JOIN b ON ..., c
+                    for join_clause in list_join_clause(from_expression):
+                        tables += self._list_table_from_from_clause_or_join_clause(
+                            join_clause, holder
+                        )
             else:
                 if from_expression_element := find_from_expression_element(segment):
                     tables += self._add_dataset_from_expression_element(
